@@ -112,13 +112,17 @@ class Link:
             self.d.cancel(rng.choice(out))
 
 
-def run_schedule(seed, window, nlabels, fault_rate, cancels):
+def run_schedule(seed, window, nlabels, fault_rate, cancels, directed=None):
     import random
     rng = random.Random(seed)
     L = Link(window, rng)
     labels = []
     try:
-        for _ in range(nlabels):
+        for lab in (directed or []):
+            lab = tuple(lab)
+            labels.append(lab)
+            _apply(L, lab, rng)
+        for _ in range(0 if directed is not None else nlabels):
             r = rng.random()
             if r < 0.12:
                 lab = ("hsub",)
@@ -164,7 +168,8 @@ def run_schedule(seed, window, nlabels, fault_rate, cancels):
                 "host_up": [e[1].hex() for e in d.rec.log if e[0] == "up"], "ncp_up": [p.hex() for p in L.ncp_up],
                 "host_subm": [[i, p.hex()] for i, p in L.host_subm], "ncp_subm": [p.hex() for p in L.ncp_subm],
                 "dones": {str(k): v for k, v in dones.items()}, "labels": len(labels),
-                "failed": d.proto._ncp_state.name == "FAILED"}
+                "failed": d.proto._ncp_state.name == "FAILED",
+                "ncp_acked_all": not L.ncp.unacked and not L.ncp.queue}
     except BaseException as e:  # noqa
         import traceback
         return {"crash": repr(e) + traceback.format_exc()[-800:], "events": L.d.events, "steps": [], "final": []}
@@ -282,10 +287,20 @@ class Check(PropertyCheck):
         for i in range(n):
             cases.append({"seed": rng.randrange(1 << 30), "window": 1 + i % 3, "n": rng.choice([80, 200, 400]),
                           "fault": rng.choice([0.0, 0.03, 0.08, 0.15, 0.3, 0.5]), "cancels": i % 5 == 0})
+        # directed: the host's DATA frame is lost and repeated after the timeout while NCP traffic goes on -- k NCP frames
+        # delivered and acknowledged in between, then w frames of the NCP's window lost; the repeat carries the host's
+        # acknowledgement number (cumulative, three bits): it must be the current one.  All k around a wrap, windows 1..3
+        for w in (1, 2, 3):
+            for k in (range(4, 10) if tier == "quick" else range(0, 18)):
+                lab = [("hsub",), ("h2n", "drop")]
+                for _ in range(k):
+                    lab += [("nsub",), ("n2h", "deliver"), ("h2n", "deliver")]
+                lab += [("nsub",)] * w + [("n2h", "drop")] * w + [("htimeout",), ("h2n", "deliver")]
+                cases.append({"seed": 1, "window": w, "n": 0, "fault": 0.0, "cancels": False, "directed": lab})
         return cases
 
     def run_impl(self, case):
-        obs = run_schedule(case["seed"], case["window"], case["n"], case["fault"], case["cancels"])
+        obs = run_schedule(case["seed"], case["window"], case["n"], case["fault"], case["cancels"], case.get("directed"))
         case["_events"] = obs.pop("events")
         return obs
 
@@ -334,6 +349,9 @@ class Check(PropertyCheck):
         for i, out in obs["dones"].items():
             if out == [0] and obs["ncp_up"].count(pl[i]) != 1:
                 return f"send {i} completed successfully but its payload was delivered {obs['ncp_up'].count(pl[i])} times"
+        if obs.get("ncp_acked_all") and not obs["failed"] and len(obs["host_up"]) != len(obs["ncp_subm"]):
+            return (f"every send of the NCP completed (acknowledged by the host) but only {len(obs['host_up'])} of "
+                    f"{len(obs['ncp_subm'])} payloads were handed up on the host side")
         return None
 
     def judge(self, obs):
